@@ -25,6 +25,27 @@ CHECKS = {
    text="Coq theorems: CompactAll with an expiry configuration yields exactly filter keep_log of the previous reflog view with refs untouched, for all stacks and all configurations; keep_log is proved equivalent to the documented rule (time strictly older / index outside window; 0 = unset). Tied on every run: real CompactAll(expiry) on histories vs the composed model, oracle computed from the implementation's own before/after views",
    design="5/C13", technique="Coq proof (corollary of the compaction algebra) + extracted-model differential tie",
    note="as C07"),
+ "C01": dict(
+   text="Coq theorems for ALL inputs up to the block level: varint, key codec, the four record codecs, and whole blocks (any records the block writer accepted, any block size / restart interval / hash size / block type incl. zlib, read back record for record with the correct next-block distance). The table level (sections, padding, index, object index, header/footer/CRC) is modelled function by function and tied BYTE-FOR-BYTE to the Go writer and reader on every run; its proof is in progress (see DESIGN.md)",
+   design="5/C01", technique="Coq proof (round-trip lemmas bottom-up, block invariant) + byte-exact extracted-model tie",
+   note="zlib is an oracle with a stated round-trip hypothesis; table-level theorem not yet in the build: that part rests on the tie (differential testing)"),
+ "C02": dict(
+   text="Coq theorem: within every block the writer produces, seek (binary search over restart keys + scan) lands exactly before the first record >= k for EVERY key; log key order/injectivity proved. Table-level seek (linear across blocks, multi-level index descent) is modelled as coded and tied to the Go reader on all key equivalence classes per generated table (0..3 index levels, multi-block top level); proof of that level in progress",
+   design="5/C02", technique="Coq proof (block seek) + extracted-model tie over key equivalence classes",
+   note="as C01; index descent proved terminating for ALL byte strings (C18), its functional correctness rests on the tie"),
+ "C11": dict(
+   text="Coq theorem: Merged.RefsFor with its double check = filter (points_to oid) of the stack's live view, for ALL stacks and object ids (raw and suppressing view). Single-table RefsFor (object index construction, abbreviation, truncated position lists, linear fallback, update index) is modelled as coded and tied to the Go code per generated table / object id",
+   design="5/C11", technique="Coq proof (stack level) + extracted-model tie (table level)",
+   note="table-level RefsFor correctness rests on the tie; per-table hits are those of the model reader"),
+ "C14": dict(
+   category="translation_validation",
+   text="every file the implementation emits (C01 tables, tables written by Add and by compaction in C07/C13 histories) is judged on every run by the extracted independent spec decoder (header copy, CRC-32, positions, zero padding, restart tables, key order, every index level vs its children, object index vs ref blocks, update-index range) and its decoded records are compared with the source records; the Coq part proves properties of the judge and the byte-exact writer model is the same function the C01 proofs are about",
+   design="5/C14", technique="translation validation by an extracted Coq spec decoder + Coq lemmas about the judge",
+   note="the theorem 'writer output is always accepted by the judge' is not proved; each emitted file is validated instead"),
+ "C18": dict(
+   text="Coq theorems for ALL byte strings (< 2^31) and ANY inflate function: NewReader, SeekRef, SeekLog, RefsFor and full scans never reach a panic site and never exhaust their loop bounds (termination measures: file offset strictly increases across blocks, child offset strictly below its index block, window doubling). The termination proof found a hang (index cycle) that the first repair had missed; fixed. Tied on every run: outcome class and records of Go (recover + timeout) vs model on mutations of valid tables, crafted extreme length fields and a corpus",
+   design="5/C18", technique="Coq proof (safety + termination of the reader model) + differential fuzz tie",
+   note="allocation is bounded by input size and by what zlib returns (zlib's expansion is outside the model); Go runtime faults other than slice/nil/explicit panics are observed by the harness only"),
 }
 
 NA_REASON = "not built yet in this round (see DESIGN.md section 7 for the order of work); no check is registered, nothing is claimed"
